@@ -34,8 +34,8 @@ func init() {
 			{ID: "C09.R1", Min: 3, Run: c09r1, Statement: "in the phase engine every call that may send a write is reachable only when owner.IsSpecPaused() is false; on the paused edge the object is read from the cache and returned for probing"},
 			{ID: "C09.R2", Min: 2, Run: c09r2, Statement: "every call path from a controller to a Delete of a managed object / delegated phase object passes the guard DeletionTimestamp != 0 or IsArchived() of the owner"},
 			{ID: "C09.R3", Min: 5, Run: c09r3, Statement: "Paused=True only under IsSpecPaused() (ObjectSet: and all remote phases paused); Paused removed only when not paused; the delegated phase pause patch is sent iff current and desired differ, with the desired value and the resourceVersion of the patched object"},
-			{ID: "C09.R4", Min: 8, Run: c09r4, Statement: "ObjectDeployment controller: writes other than the pause propagation are skipped while paused; propagation only to non-archived revisions whose paused-by-parent mark differs; unpause only where the parent mark is set; adapters agree on the mark"},
-			{ID: "C09.R5", Min: 3, Run: c09r5, Statement: "Package controller: no writing sub-reconciler while paused; the ObjectDeployment Update is sent only when the pause values differ and sets exactly the package's value"},
+			{ID: "C09.R4", Min: 12, Run: c09r4, Statement: "ObjectDeployment controller: writes other than the pause propagation are skipped while paused; propagation only to non-archived revisions whose paused-by-parent mark differs; unpause only where the parent mark is set; adapters agree on the mark"},
+			{ID: "C09.R5", Min: 5, Run: c09r5, Statement: "Package controller: no writing sub-reconciler while paused; the ObjectDeployment Update is sent only when the pause values differ and sets exactly the package's value"},
 		},
 	})
 }
@@ -113,7 +113,7 @@ func (d *c09Descent) run(fn *ssa.Function, owner ssa.Value, depth int) {
 		}
 		o.Note("may write via: " + strings.Join(effs, " | "))
 		if p.mwHoldsOnAllPaths(call.Block(), d.notPaused(owner)) {
-			o.OK("guarded: " + d.what + " not paused on every path")
+			o.OK("guarded: " + d.what + " not paused (or being deleted) on every path")
 			continue
 		}
 		if ws, isW := classifyWriter(call); isW {
